@@ -123,8 +123,13 @@ def _same(a, b, tol):
     a, b = a.ravel(), b.ravel()
     if tol == 0.0:
         return bool(np.array_equal(a, b))
-    if not (np.all(np.isfinite(a)) and np.all(np.isfinite(b))):
+    fa, fb = np.isfinite(a), np.isfinite(b)
+    if not np.array_equal(fa, fb):
         return False
+    if not fa.all():  # overflow (exp of exp ...) must at least be the same overflow
+        if not np.array_equal(a[~fa], b[~fa], equal_nan=True):
+            return False
+        a, b = a[fa], b[fa]
     return bool(np.all(np.abs(a - b) <= tol * np.maximum(1.0, np.abs(b))))
 
 
@@ -136,7 +141,8 @@ def compare(got, want, tol):
         if set(got[k]) != set(want[k]):
             return {"id": k, "outputs_loaded": sorted(got[k]), "outputs_expected": sorted(want[k])}
         for name in want[k]:
-            if not _same(got[k][name], want[k][name], tol):
+            # site-model categories span many orders of magnitude for small shapes (see C05)
+            if not _same(got[k][name], want[k][name], tol * 100 if (tol and name.endswith("~")) else tol):
                 return {"id": k, "output": name, "loaded": got[k][name], "expected": want[k][name]}
     return None
 
